@@ -733,7 +733,10 @@ def run_history(h):
 def history_from_case(c, rng, k):
     """a policy case run as a history: a permissive receiver of the same class first, then the case's own settings"""
     mode = HISTORY_MODES[k % len(HISTORY_MODES)]
-    others = [S(), S(auto=True), random_settings(rng), S(white=[["s", c["name"]]]), S(remap=[[c["name"], ["s", "zed"]]])]
+    rnd = random_settings(rng)
+    # the history probe cannot tell a remapped read of __class__ from the interpreter's own (single cases cover it)
+    rnd["remap"] = [kv for kv in rnd["remap"] if kv[1][1] not in PROTO_ATTRS]
+    others = [S(), S(auto=True), rnd, S(white=[["s", c["name"]]]), S(remap=[[c["name"], ["s", "zed"]]])]
     first = others[k % len(others)]
     recv = [{"cls": 0, "sargs": first}, {"cls": 0, "sargs": c["sargs"]}]
     if k % 3 == 0:
